@@ -173,6 +173,22 @@ def classify(g, unit, diags):
                 srcloc = '%s:%d' % (info['src'], info['line'])
                 break
         text = (prim[0]['text'][0]['text'].strip() if prim and prim[0].get('text') else '')
+        # an explicit obligation marker /*[C04 name]*/ on the generated line (ghost text spliced by E9 / anchors)
+        marker = None
+        for s_ in prim:
+            for ln_ in range(s_['line_start'], s_['line_end'] + 1):
+                if 0 < ln_ <= len(g.out.lines):
+                    mk = re.search(r'/\*\[([A-Z0-9, ]+?)\s+([\w.-]+)\]\*/', g.out.lines[ln_ - 1])
+                    if mk:
+                        marker = ([t for t in re.split(r'[ ,]+', mk.group(1)) if t], mk.group(2))
+                        break
+            if marker:
+                break
+        prim_ghost = False
+        for s_ in prim:
+            info = g.out.map[s_['line_start'] - 1] if 0 < s_['line_start'] <= len(g.out.map) else None
+            if info and info.get('kind') == 'ghost':
+                prim_ghost = True
         if f is None:
             aux.append('%s @gen:%s | %s' % (msg, lines, text[:120]))
             last = Failure(expansion='')
@@ -180,7 +196,16 @@ def classify(g, unit, diags):
         kind = ('post' if 'postcondition' in msg else 'pre' if 'precondition' in msg else
                 'inv' if 'invariant' in msg else 'assert' if 'assertion' in msg else
                 'overflow' if 'overflow' in msg else 'termination' if ('decreases' in msg or 'termination' in msg) else 'other')
-        if clause is not None and kind in ('post', 'inv'):
+        if marker is not None and f is not None and not (clause is not None and kind in ('post', 'inv')) and not (kind == 'pre' and callee_clause is not None):
+            props = marker[0]
+            oid = '%s.%s.%s.%s@%s' % (','.join(props), unit, f['qual'], marker[1], srcloc or 'ghost')
+            ctext = text
+        elif kind == 'pre' and callee_clause is None and prim_ghost:
+            props = f['props']
+            h = hashlib.sha1(text.encode()).hexdigest()[:6]
+            oid = '%s.%s.%s.lemma-pre@ghost-%s' % (','.join(props), unit, f['qual'], h)
+            ctext = text
+        elif clause is not None and kind in ('post', 'inv'):
             props = clause.tags or f['props']
             oid = clause.ident(unit)
             ctext = clause.text
